@@ -1,5 +1,5 @@
 (* Codec/ProofsBytes.v — C12: EncodeBytes / decodeBytes: round trip, order preservation, prefix-freeness *)
-From ZV Require Import Common.Bytes Common.BytesFacts Codec.Consts Codec.MemCmp Codec.ProofsNum.
+From ZV Require Import Common.Bytes Common.BytesFacts Codec.Consts Codec.MemCmp Codec.Keys Codec.Spec Codec.ProofsNum.
 From Coq Require Import ZifyN ZifyNat ZifyBool Lia.
 Open Scope N_scope.
 
